@@ -3,6 +3,7 @@ import Tw.Proofs.Packer
 import Tw.Proofs.PackerFields
 import Tw.Proofs.PackerSeq
 import Tw.Gen.Packer
+import Tw.Proofs.RsPacker
 
 /-!
 # C08 — variable-length integers and packed fields round-trip canonically
@@ -104,5 +105,18 @@ example : readInt [0x80, 0x00] = some (0, [], [Warning.overlongIntEncoding]) := 
 example : (Field.str [65, 66]).wf ∧ (Field.data [1, 2, 3]).wf ∧ (Field.int (-5)).wf := by
   refine ⟨?_, ?_, ?_⟩ <;> simp [Field.wf] <;> decide
 example : readInt [0xff, 0xff] = none := by decide
+
+/-! ## Function-level tie (`tools/rs2lean`): `to_bit` of `packer/src/lib.rs`
+
+`Tw.Gen.RsPacker.to_bit` is regenerated from the Rust source on every run (`write_int`, `read_int`
+are generated next to it; their equivalence with `writeInt`/`readInt` is work in progress, see
+`notes/rs2lean.md`). -/
+
+/-- `to_bit(b, bit)` sets exactly bit `bit` when `b` holds, and panics iff the assertion `bit < 8`
+fails (the model's `writeInt` uses it as `(if … then 128 else 0)` / `sign * 64`). -/
+theorem tie_rs_to_bit (b : Bool) (bit : Nat) :
+    (bit < 8 → Tw.Gen.RsPacker.to_bit b bit = .ok (if b then 2 ^ bit else 0)) ∧
+    (8 ≤ bit → ∃ p, Tw.Gen.RsPacker.to_bit b bit = .error p) :=
+  ⟨Tw.RsPacker.to_bit_eq b bit, Tw.RsPacker.to_bit_panics b bit⟩
 
 end Tw.Props.C08
